@@ -450,6 +450,28 @@ def rt_eq(a, b, _d=0):
     return False
 
 
+def ext(name, *args, **kw):
+    raise NotCheckable('external call value')
+
+
+def did_call(name, *args, **kw):
+    raise NotCheckable('call log')
+
+
+def exited(cm):
+    raise NotCheckable('context-manager log')
+
+
+def cm_enter(cm):
+    raise NotCheckable('context-manager')
+
+
+def clsref_dotted(name):
+    import importlib
+    mod, _, attr_ = name.rpartition('.')
+    return getattr(importlib.import_module(mod), attr_)
+
+
 def forall_bools4(f):
     import itertools
     return all(f(*c) for c in itertools.product([False, True], repeat=4))
@@ -645,6 +667,13 @@ def namespace():
         ns['ndarray'] = _np.ndarray
     except Exception:
         ns['ndarray'] = type('ndarray', (), {})
+    import io as _io
+    ns['IOBase'] = _io.IOBase
+    ns['TextIOWrapper'] = _io.TextIOWrapper
+    ns['BufferedIOBase'] = _io.BufferedIOBase
+    ns['TextIO'] = _t.TextIO
+    ns['BinaryIO'] = _t.BinaryIO
+    ns['List'] = _t.List
     ns['Field'] = importlib.import_module('pane.field').Field
     ns['FieldSpec'] = importlib.import_module('pane.field').FieldSpec
     return ns
